@@ -399,6 +399,49 @@ func c18Spaces(tier string) []c18Space {
 			return "script S {\n\tmsgbox(ascii\"" + content + "\")\n\tx(custom\"" + content + "\")\n}\n"
 		}
 	}})
+	// long tokens where another token is expected (error paths quote the unexpected token): a string, an identifier, a raw
+	// string or a number of N characters for every N up to 400, filled with 1-, 2-, 3- and 4-byte characters, in 8 places
+	// where the grammar wants something else
+	fills := []string{"a", "é", "こ", "😀"}
+	const tokKinds, errPlaces, maxTokN = 4, 8, 400
+	spaces = append(spaces, c18Space{kind: "long-tokens-in-errors", total: uint64(maxTokN+1) * uint64(len(fills)) * tokKinds * errPlaces, input: func(idx uint64) string {
+		place := int(idx % errPlaces)
+		idx /= errPlaces
+		kind := int(idx % tokKinds)
+		idx /= tokKinds
+		fill := fills[idx%uint64(len(fills))]
+		n := int(idx / uint64(len(fills)))
+		body := strings.Repeat(fill, n)
+		var tok string
+		switch kind {
+		case 0:
+			tok = "\"" + body + "\""
+		case 1:
+			tok = "x" + body
+		case 2:
+			tok = "`" + body + "`"
+		default:
+			tok = "1" + strings.Repeat("7", n)
+		}
+		switch place {
+		case 0:
+			return "text T\n\t" + tok + "\n}\n"
+		case 1:
+			return "script S " + tok + " {\n\tx\n}\n"
+		case 2:
+			return "script S {\n\tif (flag(X)) " + tok + "\n}\n"
+		case 3:
+			return "text T {\n\tformat " + tok + "\n}\n"
+		case 4:
+			return "script S {\n\tswitch (var(V)) {\n\t\tcase " + tok + " x\n\t}\n}\n"
+		case 5:
+			return "script S {\n\tporyswitch(" + tok + " {\n\t}\n}\n"
+		case 6:
+			return "mapscripts M {\n\tT [\n\t\tVAR_A " + tok + "\n\t]\n}\n"
+		default:
+			return "const " + tok + " " + tok + "\nmovement M " + tok + "\n"
+		}
+	}})
 	// character strings
 	nC := uint64(len(c18Chars))
 	var chOffsets []uint64
@@ -742,5 +785,5 @@ func runC18(tier string) int {
 		"configurations are a covering set, not the full matrix: every option value appears in at least one configuration",
 		"an error must be a parser.ParseError with 1 <= start line <= end line <= number of lines (counting the empty line after a final newline)")
 	return r.Finish(r.Get("evaluations"), r.Get("nontrivial"),
-		"(a) every sequence of <= L tokens from a 57-lexeme alphabet after each of 29 context prefixes, with 3 suffixes; (b) every single deviation (truncation, deletion, replacement or insertion by every alphabet token) of 12 seed programs that use every production (thorough: pairs of deviations on the small seeds); (c) every sequence of <= S well-formed statement templates (29 templates, shared with C01); (d) every sequence of <= D constant definitions over three names whose values mention each other, followed by a program using them at every use site; (e) every integer from 0 to 70000 (thorough 2^20) and 20 values around 2^31, 2^32, 2^63, 2^64 and powers of ten, decimal and hex, at every position that interprets a number; (e') every scaled program (templates repeated K times, blocks nested K deep, switches with K cases); (g) text literals of every length up to 2100 bytes (and 11 lengths up to 70000) x 8 start/end shapes (unclosed / closed brace code, trailing backslash, multi-byte end, spaces only) x 4 origins; (f) every string of <= N characters over 23 characters incl. multi-byte letters, a 3-byte non-letter, U+FFFD, NUL, quote, backtick, CR, bare and inside 'script S { x('; each input under a covering set of configurations (optimize, line markers/path, switches, font file/default font, command configs incl. argument positions -1 and 3 and one whose keys are the identifier-like literals of the compiler's source and its keywords, normal and lint); evaluations = input x configuration runs; non-trivial = the input is rejected (an error path is taken)")
+		"(a) every sequence of <= L tokens from a 57-lexeme alphabet after each of 29 context prefixes, with 3 suffixes; (b) every single deviation (truncation, deletion, replacement or insertion by every alphabet token) of 12 seed programs that use every production (thorough: pairs of deviations on the small seeds); (c) every sequence of <= S well-formed statement templates (29 templates, shared with C01); (d) every sequence of <= D constant definitions over three names whose values mention each other, followed by a program using them at every use site; (e) every integer from 0 to 70000 (thorough 2^20) and 20 values around 2^31, 2^32, 2^63, 2^64 and powers of ten, decimal and hex, at every position that interprets a number; (e') every scaled program (templates repeated K times, blocks nested K deep, switches with K cases); (h) a string / identifier / raw string / number token of every length up to 400 characters of 1 to 4 bytes each in 8 places where the grammar expects another token; (g) text literals of every length up to 2100 bytes (and 11 lengths up to 70000) x 8 start/end shapes (unclosed / closed brace code, trailing backslash, multi-byte end, spaces only) x 4 origins; (f) every string of <= N characters over 23 characters incl. multi-byte letters, a 3-byte non-letter, U+FFFD, NUL, quote, backtick, CR, bare and inside 'script S { x('; each input under a covering set of configurations (optimize, line markers/path, switches, font file/default font, command configs incl. argument positions -1 and 3 and one whose keys are the identifier-like literals of the compiler's source and its keywords, normal and lint); evaluations = input x configuration runs; non-trivial = the input is rejected (an error path is taken)")
 }
